@@ -156,6 +156,19 @@ def run():
                         rid = f"I{len(reqs)}"
                         reqs.append({"id": rid, "src": f"{lit}.new({nargs}){use}", "fuel": 20000, "depth": 100, "deadline_ms": 3000})
                         meta[rid] = ("iter", lit, use, 0)
+    # module functions with every kind of argument: import / invite!, the http module's constructors and client (no server is started)
+    margs = ["", "1", "nil", '""', '"."', '"./"', '"./nosuch"', '"../../../../etc/passwd"', '"http"', '"http/internal"', '"nosuchmodule"', '"dummy_native_wrong"', "[1]", "{a: 1}", "'sym", '"a" * 5000',
+             '"\x00"', '"./\x00"', "Str", "{|x| x}"]
+    for a in margs:
+        for f in ("import({a})", "invite!({a})", "import({a}, {a})", "nil.try.{{|u| import({a})}}.A", "h := import(\"http\"); h.S.get({a}, {a})", "h := import(\"http\"); h.S.get(\"/x\", {a})",
+                  "h := import(\"http\"); h.Response.new(status: {a}, body: {a}, headers: {a})", "h := import(\"http\"); h.Response.new({a}).header({a})", "h := import(\"http\"); h.S.serve({a}, background: true, url: \":0\")()",
+                  "i := import(\"http/internal\"); i['newHandler]({a}, {a}, {a})", "i := import(\"http/internal\"); i['newServer]({a})", "i := import(\"http/internal\"); i['stop]({a})",
+                  "i := import(\"http/internal\"); i['request](method: {a}, url: \"http://127.0.0.1:1/\", headers: {a})"):
+            if a == "" and "{a}, {a}" in f:
+                continue
+            rid = f"M{len(reqs)}"
+            reqs.append({"id": rid, "src": f.format(a=a or ""), "fuel": 100000, "depth": 150, "deadline_ms": 5000})
+            meta[rid] = ("module", f, a, 0)
     # the value of a body that ends with each kind of statement, used in every way a value can be used
     stmts = ["defer 1", "defer 1 if true", "defer 1 if false", "return 1", "return 1 if false", "yield 1", "yield 1 if false", "raise Err.new(\"e\")", "raise Err.new(\"e\") if false",
              "x := 1", "1", "nil", "defer (defer 1)", "return (defer 1)", "defer return 1", "yield (defer 1)", "defer yield 1", "defer raise Err.new(\"e\")", "return return 1", "return yield 1"]
@@ -296,7 +309,7 @@ def run():
                       f"tuples ({len(argsets)}: none, one from a {len(SUB12) if not thorough else len(POOL)}-value pool, pairs from a sub-pool, keyword / * / ** forms); token space: all pairs of {len(reps)} token "
                       "representatives (from the real lexer over the corpus + malformed tokens) + seeded triples; byte-level mutations of corpus files; index/slice space "
                       "on 15 receivers x 26 indices x 4 forms; derived structures (20 key kinds x 17 builders x 33 consumers: conversions such as Arr#O / Arr#M over descendants of str, then ** / * expansion, "
-                      "iteration, printing, JSON); the value of bodies ending in each statement kind (defer / return / yield / raise, guarded, nested) in 20 uses; iterator literals (0..3 parameters x 0..4 arguments to new x 0..4 to recur x keywords x 4 ways to advance); calls that ended in an error made three more times in one process; stdin shapes through <>; interactive sessions: sessions of <= 4 (thorough 5) lines over 12 line kinds that PanRepl allows (quick: 4000 seeded of 22621; thorough: 60000 seeded of all), typed into "
+                      "iteration, printing, JSON); the value of bodies ending in each statement kind (defer / return / yield / raise, guarded, nested) in 20 uses; module functions (import / invite! / http constructors and client) x 20 argument kinds; iterator literals (0..3 parameters x 0..4 arguments to new x 0..4 to recur x keywords x 4 ways to advance); calls that ended in an error made three more times in one process; stdin shapes through <>; interactive sessions: sessions of <= 4 (thorough 5) lines over 12 line kinds that PanRepl allows (quick: 4000 seeded of 22621; thorough: 60000 seeded of all), typed into "
                       "runscript.StartREPL and compared with the transcript PanRepl prescribes (chunks evaluated in one scope), + seeded sessions over mode words in every capitalisation; a seeded sample again through runscript.RunSource; non-trivial = runs ending in a "
                       "Pangaea error (a built-in was reached with arguments it has to reject)")
     ck.assumptions = ["programs cut off by the evaluation fuel / depth / deadline / heap watchdog are discarded (the property's proviso)",
